@@ -2,7 +2,7 @@
 from .common import *  # noqa: F401,F403
 from . import common
 from .c09 import point, sec_c
-from .c01 import rand_parent, h160
+from .c01 import rand_parent, h160, collision_cases
 import impl
 
 PID = "C02"
@@ -22,7 +22,7 @@ def neuter(spec, k):
     return "p:%s:%s:%s:%s:%s:%s" % (hx(sec_c(x, y)), chain, depth, index, t, fp)
 
 
-def cases(rng, tier):
+def _cases_main(rng, tier):
     n = 50 if tier == "quick" else 4000
     for _ in range(n):
         spec, k, chain, depth = rand_parent(rng)
@@ -56,12 +56,21 @@ def nontrivial(line, out):
 
 def oracle(line, out):
     tok = line.split(" ")
-    if tok[0] != "ckd":
-        return None
     v = ok_val(out)
-    spec, ls = tok[1], impl.unlist(int, tok[2])
-    cls, key, chain, depth, index, t, fp = spec.split(":")
-    if cls != "p":
+    if tok[0] == "w_bypath":
+        # watch-only wallet built from an extended public key: decode the key independently, derive with CKDpub
+        raw = b58check_dec(unstr(tok[1].split(":")[1]))
+        depth, fp0, index = raw[4], raw[5:9], int.from_bytes(raw[9:13], "big")
+        chain, key = hx(raw[13:45]), hx(raw[45:78])
+        comps = unstr(tok[2]).split("/")[1:]
+        ls = [int(c) for c in comps]
+        t = "0"
+    elif tok[0] == "ckd":
+        spec, ls = tok[1], impl.unlist(int, tok[2])
+        cls, key, chain, depth, index, t, fp = spec.split(":")
+        if cls != "p":
+            return None
+    else:
         return None
     if any(i >= 2 ** 31 for i in ls):
         return None if v is None else "hardened child derived from public-only data"
@@ -121,3 +130,34 @@ def extra_checks(rng, tier, g, info):
 
 
 known_match = common.no_known
+
+
+XPUB = 0x0488B21E
+
+
+def wallet_cases(rng, tier):
+    """watch-only WALLETS built from sibling extended public keys (same key / other chain code — hence the same
+    master fingerprint —, fingerprint-colliding keys / same chain code, same all / other depth and child number),
+    asked for the same path strings in one process"""
+    pairs = common.fp_pairs()
+    n = 3 if tier == "quick" else len(pairs)
+    for ka, kb in pairs[:n]:
+        ch1 = bytes(rng.getrandbits(8) for _ in range(32))
+        ch2 = bytes(rng.getrandbits(8) for _ in range(32))
+        xa, ya = point(ka)
+        xb, yb = point(kb)
+        sibs = [common.xkey_string(XPUB, 0, bytes(4), 0, ch1, sec_c(xa, ya)),
+                common.xkey_string(XPUB, 0, bytes(4), 0, ch2, sec_c(xa, ya)),
+                common.xkey_string(XPUB, 0, bytes(4), 0, ch1, sec_c(xb, yb)),
+                common.xkey_string(XPUB, 3, b"\x01\x02\x03\x04", 7, ch1, sec_c(xa, ya)),
+                common.xkey_string(XPUB, 0, bytes(4), 0, ch1, sec_c(xa, ya))]
+        paths = ["M/0/1", "M/%d" % rng.choice(NORMAL), "M/1/2/3"]
+        for pth in paths:
+            for xk in sibs:
+                yield "w_bypath xkey:%s %s" % (sx(xk), sx(pth)), "wallet-sibling-xpubs"
+
+
+def cases(rng, tier):
+    yield from _cases_main(rng, tier)
+    yield from collision_cases(rng, tier, neuter_fn=neuter)
+    yield from wallet_cases(rng, tier)
